@@ -147,8 +147,9 @@ __start__:
         {
             c = ctx.GSTUFF_STUB;
         }
-        else if (ctx.GSTUFF_START) 
+        else if (c == ctx.GSTUFF_START) 
         {
+            // Стартовый символ после STUFF: начинаем новый пакет.
             reset();
             goto __force_restart__;
         }
